@@ -210,6 +210,17 @@ def temp_binders(x, out, runs=(), seen=None):
                 site(t.id, t)
     if isinstance(x, ast.arg):
         site(x.arg, x)
+    if isinstance(x, ast.Lambda) and not has_source(x.body):
+        # parameters of a helper lambda whose body holds nothing of the source: a closed scope
+        a = x.args
+        for p_ in list(a.posonlyargs) + list(a.args) + list(a.kwonlyargs) + [a.vararg, a.kwarg]:
+            for q_ in (p_.items if isinstance(p_, Seg) else [p_]):
+                if isinstance(q_, ast.arg):
+                    site(q_.arg, q_, "bind-closed")
+        for d_ in list(a.defaults) + [d for d in a.kw_defaults if d is not None]:
+            temp_binders(d_, out, runs, seen)
+        temp_binders(x.body, out, runs, seen)
+        return
     for f in x._fields:
         if isinstance(x, ast.NamedExpr) and f == "target" and isinstance(x.target, ast.Name):
             continue
@@ -252,7 +263,7 @@ def g_hygiene(R, tier):
         own = {name_key(h) for h in getattr(em, "own_names", ())}
         sites = []
         temp_binders(res, sites)
-        d = per_t.setdefault(fn, dict(n=0, t1=[], t2=[], t3=[]))
+        d = per_t.setdefault(fn, dict(n=0, t1=[], t2=[], t3=[], t4=[]))
         d["n"] += 1
         reads = {}
         for nm_, sid, runs, kind in sites:
@@ -270,9 +281,16 @@ def g_hygiene(R, tier):
                     d["t2"].append(f"{k_} is bound in every round of the run over {stale[0]} and read outside it")
             if "get_result" not in fn and k_ not in own:
                 d["t3"].append(f"{k_} was not created by this call")
+            # a temporary bound where source code runs must be a name made by ol_name() -- by this call
+            # or by the constructor of the object it is state of (state_names_are_fresh) -- never a
+            # constant or a text derived from the program: nested instances of the construct would share it
+            # (`__class__` is the language's own name for the class cell: one per class scope, PEP 3135)
+            if not (isinstance(nm_, Hole) and nm_.props.get("fresh")) and "PendingModule.get_result" not in fn and k_ != "__class__":
+                d["t4"].append(f"{k_} is a fixed or derived name")
     for fn in sorted(per_t):
         d = per_t[fn]
         R.check(f"{fn}/temporaries/a-binder-in-a-repeated-part-gets-a-new-name-per-round", not d["t2"], "; ".join(sorted(set(d["t2"])))[:400], replay=dict(kind="temps"))
+        R.check(f"{fn}/temporaries/names-bound-around-source-code-are-made-by-ol_name", not d["t4"], "; ".join(sorted(set(d["t4"])))[:400], replay=dict(kind="temps"))
         if "get_result" not in fn:
             # functions that run several times per statement (once per target, per name):
             # what they bind must be created by the call itself
@@ -344,8 +362,10 @@ def g_state_names_are_fresh(R, tier):
         cases.append((f"namespaces.Namespace{kind.capitalize()}.__init__", mk))
     for lname, lcls, node in (("PendingWhile", pn.PendingWhile, lambda: ast.While(test=CL.src("t"), body=[], orelse=[], lineno=3, col_offset=0)),
                               ("PendingFor", pn.PendingFor, lambda: ast.For(target=ast.Name(id="i", ctx=ast.Store()), iter=CL.src("it"), body=[], orelse=[], lineno=3, col_offset=0))):
-        def mk(m, lcls=lcls, node=node):
-            return CL.mk_pending(lcls, node(), CL.mk_nsp(), CL.mk_global(), m=m)
+        def mk(m, first=None, lcls=lcls, node=node):
+            # the second loop is created INSIDE the first one (the first is on the loop stack)
+            return CL.mk_pending(lcls, node(), CL.mk_nsp(loop_stack=[first] if first is not None else []), CL.mk_global(), m=m)
+        mk.nested = True
         cases.append((f"pending_nodes.{lname}.__init__", mk))
     for nm, mk in cases:
         def run(c, mk=mk):
@@ -353,7 +373,7 @@ def g_state_names_are_fresh(R, tier):
             lo = len(getattr(c, "ol_created", ()))
             a = mk(m)
             mid = len(getattr(c, "ol_created", ()))
-            b = mk(m)
+            b = mk(m, a) if getattr(mk, "nested", False) else mk(m)
             return dict(a=a, b=b, own_a=list(getattr(c, "ol_created", ())[lo:mid]), own_b=list(getattr(c, "ol_created", ())[mid:]))
         for p in explore(run):
             if p.kind != "ok":
@@ -372,6 +392,13 @@ def g_state_names_are_fresh(R, tier):
                             names_a[k_] = x_.id
                         elif k_ in names_a and name_key(names_a[k_]) == name_key(x_.id):
                             bad.append(f"{k_}: two objects share the name {name_key(x_.id)}")
+            for obj, tag_ in ((v["a"], "first"), (v["b"], "second")):
+                seen_ = {}
+                for k_, x_ in vars(obj).items() if not isinstance(obj, Opaque) else obj.fields.items():
+                    if isinstance(x_, ast.Name):
+                        if name_key(x_.id) in seen_:
+                            bad.append(f"{tag_}: {seen_[name_key(x_.id)]} and {k_} are the same name {name_key(x_.id)} (two pieces of state in one variable)")
+                        seen_[name_key(x_.id)] = k_
             R.check(f"{nm}/every-state-name-is-a-fresh-name-of-this-object", not bad, "; ".join(bad)[:500], replay=dict(kind="temps"))
 
 
@@ -449,6 +476,9 @@ TEMP_PROGRAMS = [
     "def outer(c):\n    c.tags = getattr(c, 'tags', ()) + ('outer',)\n    return c\ndef inner(c):\n    c.tags = getattr(c, 'tags', ()) + ('inner',)\n    return c\n"
     "def third(c):\n    c.tags = getattr(c, 'tags', ()) + ('third',)\n    return c\n@outer\n@inner\n@third\nclass K:\n    pass\nr = K.tags\n",
     "d = {'a': [1, 2]}\nd['a'][0] += 5\nclass H:\n    pass\nh = H()\nh.x = [1]\nh.x += [2]\nx = y = z = [0]\nr = (d, h.x, x, y, z)\n",
+    "class A:\n    class A:\n        z = 1\n    y = 2\nr = (A.y, A.A.z)\n",
+    "rows = []\nfor r_ in range(3):\n    for c_ in range(3):\n        if c_ == 1:\n            break\n        rows.append((r_, c_))\n    if r_ == 1:\n        continue\n    rows.append(r_)\nr = rows\n",
+    "out = []\nn = 0\nwhile n < 6:\n    n += 1\n    if n % 2:\n        continue\n    if n > 4:\n        break\n    out.append(n)\nelse:\n    out.append('else')\nr = (out, n)\n",
     "import os.path\nfrom os import sep, path as p\nr = (os.path.sep, sep, p.sep)\n",
     "out = []\nfor i in range(3):\n    for j in range(2):\n        if j == 1:\n            break\n        out.append((i, j))\nn = 0\nwhile n < 3:\n    n += 1\n    m = 0\n    while m < 2:\n        m += 1\nr = (out, n, m)\n",
 ]
@@ -464,3 +494,6 @@ def replay_temps(rp):
 
 
 REPLAY = {"capture": replay_capture, "rng": c10.replay_rng, "temps": replay_temps}
+
+# bounded stand-ins for undecided obligations (olvc/oblig.py::main_check)
+STANDINS = {"*": [dict(kind="temps")]}
